@@ -20,16 +20,16 @@ from vlib import VERIF
 #   sims: (simulation module, behaviours quick, behaviours thorough, depth)
 #   mc: (exhaustive config module, quick?, timeout s)
 PIPE = {
-    "C01": dict(clauses=["C01_"], sims=[("Sim_multi", 60, 600, 170), ("Sim_multi_crash", 40, 500, 170)], mc=[("MC_c01", 900)]),
-    "C02": dict(clauses=["C02_"], sims=[("Sim_base", 50, 500, 150), ("Sim_conn", 50, 500, 150), ("Sim_multi", 20, 300, 170)], mc=[("MC_c02", 900)]),
-    "C04": dict(clauses=["C04_"], sims=[("Sim_conn", 80, 800, 150), ("Sim_rollback", 30, 400, 170)], mc=[("MC_c04", 900)]),
-    "C05": dict(clauses=["C05_"], sims=[("Sim_base", 60, 600, 150), ("Sim_multi", 40, 400, 170)], mc=[("MC_c05", 900)]),
-    "C06": dict(clauses=["C06_"], sims=[("Sim_rollback", 100, 1000, 170)], mc=[("MC_c06", 900)]),
-    "C07": dict(clauses=["C07_"], sims=[("Sim_crash", 80, 800, 150), ("Sim_multi_crash", 40, 400, 170)], mc=[("MC_c07", 900)], crashpoints=True),
-    "C08": dict(clauses=["C08_"], sims=[("Sim_base", 60, 600, 150), ("Sim_dev", 40, 400, 150), ("Sim_rollback", 30, 300, 170)], mc=[("MC_c08", 900)]),
-    "C09": dict(clauses=["C09_"], sims=[("Sim_base", 80, 800, 150), ("Sim_dev", 40, 400, 150), ("Sim_multi", 30, 300, 170)], mc=[("MC_c09", 900)]),
-    "C10": dict(clauses=["C10_"], sims=[("Sim_conn", 100, 1000, 150)], mc=[("MC_c10", 900)]),
-    "C11": dict(clauses=["C11_"], sims=[("Sim_dev", 100, 1000, 150), ("Sim_multi", 20, 200, 170)], mc=[("MC_c11", 900)]),
+    "C01": dict(clauses=["C01_"], sims=[("Sim_multi", 60, 600, 170), ("Sim_multi_crash", 40, 500, 170)], mc=[("MC_c01q", 400, "quick"), ("MC_c01", 1500, "thorough")]),
+    "C02": dict(clauses=["C02_"], sims=[("Sim_base", 50, 500, 150), ("Sim_conn", 50, 500, 150), ("Sim_multi", 20, 300, 170)], mc=[("MC_c02", 900, "both")]),
+    "C04": dict(clauses=["C04_"], sims=[("Sim_conn", 80, 800, 150), ("Sim_rollback", 30, 400, 170)], mc=[("MC_c04", 900, "both")]),
+    "C05": dict(clauses=["C05_"], sims=[("Sim_base", 60, 600, 150), ("Sim_multi", 40, 400, 170)], mc=[("MC_c05", 900, "both")]),
+    "C06": dict(clauses=["C06_"], sims=[("Sim_rollback", 100, 1000, 170)], mc=[("MC_c06", 900, "both")]),
+    "C07": dict(clauses=["C07_"], sims=[("Sim_crash", 80, 800, 150), ("Sim_multi_crash", 40, 400, 170)], mc=[("MC_c07", 900, "both")], crashpoints=True),
+    "C08": dict(clauses=["C08_"], sims=[("Sim_client", 90, 900, 150), ("Sim_base", 30, 300, 150), ("Sim_dev", 30, 300, 150), ("Sim_rollback", 20, 200, 170)], mc=[("MC_c08", 900, "both")]),
+    "C09": dict(clauses=["C09_"], sims=[("Sim_base", 80, 800, 150), ("Sim_dev", 40, 400, 150), ("Sim_multi", 30, 300, 170)], mc=[("MC_c09", 900, "both")]),
+    "C10": dict(clauses=["C10_"], sims=[("Sim_conn", 100, 1000, 150)], mc=[("MC_c10", 900, "both")]),
+    "C11": dict(clauses=["C11_"], sims=[("Sim_dev", 100, 1000, 150), ("Sim_multi", 20, 200, 170)], mc=[("MC_c11", 900, "both")]),
 }
 
 EPILOGUE = [{"k": "drain"}, {"k": "heal"}, {"k": "drain"}, {"k": "observe"}, {"k": "probe"}, {"k": "drain"}, {"k": "observe"}]
@@ -196,7 +196,7 @@ def run_mc(specdir, module, timeout, workers=12):
     if res["violated"] and os.path.exists(dump):
         try:
             j = json.load(open(dump))
-            states = j.get("state", j if isinstance(j, list) else [])
+            states = j["counterexample"]["state"]
             last = states[-1]
             last = last[1] if isinstance(last, list) else last
             cex = dict(targets=sorted(last.get("dev", {}).keys()), steps=last.get("sched", []))
@@ -239,11 +239,13 @@ def check(prop, tier, replay_file=None):
             origin[scenarios[0]["name"]] = "replay"
         else:
             # 1. exhaustive model checking of the specification
-            for module, tmo in conf["mc"]:
+            for module, tmo, tiers in conf["mc"]:
                 if not os.path.exists(os.path.join(specdir, module + ".cfg")):
                     continue
+                if tiers != "both" and tiers != tier:
+                    continue
                 if tier == "quick":
-                    tmo = min(tmo, 240)
+                    tmo = min(tmo, 400)
                 res, cex = run_mc(specdir, module, tmo)
                 mc_results.append(res)
                 log("mc %s: %s" % (module, res))
@@ -346,6 +348,7 @@ def check(prop, tier, replay_file=None):
                 simulation_states=sim_generated,
                 behaviours_by_origin={o: sum(1 for n in names if origin.get(n) == o) for o in set(origin.values())},
                 step_kinds=kinds,
+                events_in_real_traces=event_stats(tracedir, names),
                 drift_traces=drift_traces,
                 drift_by_step=drift_kinds,
                 drift_samples=drift_samples,
@@ -369,6 +372,66 @@ def check(prop, tier, replay_file=None):
         return vlib.EXIT_VIOLATION if violations else vlib.EXIT_OK
     finally:
         sc.cleanup()
+
+
+def event_stats(tracedir, names):
+    """How often the situations the clauses talk about actually occurred in the real traces."""
+    st = dict(merges=0, rollback_merges=0, failed_validations=0, refused_applies=0, transient_device_answers=0,
+              denied_device_answers=0, resync_pushes=0, crashes=0, restarts=0, elections=0, aborted_txs=0,
+              handlers_ok=0, handlers_failed=0, handlers_lost=0, handler_fine_steps=0, multi_target_txs=0,
+              txs_applied=0, txs_failed=0, fine_steps=0, probes=0, conn_events=0, device_restarts=0, traces_with_pending_at_end=0)
+    for nm in names:
+        last = None
+        term = {}
+        for line in open(os.path.join(tracedir, nm + ".ndjson")):
+            L = json.loads(line)
+            k = L["act"]["k"]
+            for m in L["merges"]:
+                if m["ok"]:
+                    st["merges"] += 1
+                    p = L["props"].get(m["by"])
+                    if p and p["kind"] == "rollback":
+                        st["rollback_merges"] += 1
+            for d in L["devlog"]:
+                if d["ctl"] == "cfg":
+                    st["resync_pushes"] += 1
+                if d["code"] in (14, 1, 4):
+                    st["transient_device_answers"] += 1
+                elif d["code"] == 7:
+                    st["denied_device_answers"] += 1
+                elif d["code"] != 0:
+                    st["refused_applies"] += 1
+            for pc in L["plug"]:
+                if not pc["valid"]:
+                    st["failed_validations"] += 1
+            if L["done"]:
+                if k == "crash": st["crashes"] += 1
+                if k == "restart": st["restarts"] += 1
+                if k in ("connup", "conndown"): st["conn_events"] += 1
+                if k == "devrestart": st["device_restarts"] += 1
+                if k == "hexec": st["handler_fine_steps"] += 1
+                if k in ("begin", "exec"): st["fine_steps"] += 1
+                if k == "probe": st["probes"] += 1
+            for t, c in L["cfgs"].items():
+                if c["term"] > term.get(t, 0):
+                    st["elections"] += c["term"] - term.get(t, 0)
+                    term[t] = c["term"]
+            if k == "init":
+                term = {}
+            last = L
+        if last:
+            for t in last["txs"]:
+                if t["state"] == "APPLIED": st["txs_applied"] += 1
+                if t["state"] == "FAILED": st["txs_failed"] += 1
+                if t["ph"]["abt"] == "D": st["aborted_txs"] += 1
+                if len(t["ch"]) > 1: st["multi_target_txs"] += 1
+            for h in last["h"].values():
+                if h["st"] == "done" and h["ok"]: st["handlers_ok"] += 1
+                if h["st"] == "done" and not h["ok"]: st["handlers_failed"] += 1
+                if h["st"] == "lost": st["handlers_lost"] += 1
+            if any(t["state"] not in ("APPLIED", "FAILED") for t in last["txs"]):
+                st["traces_with_pending_at_end"] += 1
+    return st
 
 
 def clause_names(specdir):
